@@ -224,6 +224,10 @@ def run(pid, tier, seed, replay=None):
     plans = [("mixed", seed, 160 if quick else 2500, 6), ("unknown", seed + 1, 50 if quick else 800, 5),
              ("known", seed + 2, 60 if quick else 1200, 8), ("columns", seed + 3, 120 if quick else 2500, 6),
              ("shapes", seed + 4, 50 if quick else 600, 6)]
+    if pid == "C01":
+        # several hundred instances per file (multi-byte referents, long columns); only the round-trip clauses
+        # are cheap enough at this size (decoding such a file inside TLC takes tens of minutes)
+        plans.append(("scale", seed + 5, 3 if quick else 40, 6))
     total = 0
     nontrivial = 0
     samples = []
